@@ -386,3 +386,13 @@ Section EntryTraces2.
     if body && (length ys <? length xs) then []
     else kernel_trace body true w (resid_cb_tr k (mp_eff mp w 0) zs) csum0 zs.
 End EntryTraces2.
+
+(* the residual statistics run with the CHECKED callback (both bodies; the index body asserts the lengths) *)
+Section ResidChecked.
+  Context {A : Type} `{NA : Num A} {T1 : Type} {D1 : IsNone T1 A} {T2 : Type} {D2 : IsNone T2 A}.
+  Definition ts_vregx_resid_chk (k : rstat) (body : bool) (w : nat) (mp : option nat)
+             (xs : list T1) (ys : list T2) : outcome A :=
+    let zs := combine xs ys in
+    if body && (length ys <? length xs) then Panicked AssertFail
+    else idx_run body w (fun s a => snd (resid_cb_tr k (mp_eff mp w 0) zs s a)) csum0 zs.
+End ResidChecked.
